@@ -158,9 +158,9 @@ func c16Run(raw json.RawMessage) (Case, error) {
 		wantUp, wantPeer := len(a.UpLog), len(a.PeerLog)
 		a.Mu.Unlock()
 		if up {
-			crossFlush(a.UpClock, time.Second, wantUp, func() int { return rec.doneEvents(upOrigin) }, 2*time.Second)
+			crossFlush(a.UpClock, time.Second, wantUp, func() int { return rec.doneEvents(upOrigin) }, 6*time.Second)
 		} else {
-			crossFlush(a.PeerClock, time.Second, wantPeer, func() int { return rec.doneEvents(peerOrigin) }, 2*time.Second)
+			crossFlush(a.PeerClock, time.Second, wantPeer, func() int { return rec.doneEvents(peerOrigin) }, 6*time.Second)
 		}
 	}
 	allOps := append(append([]c16Op{}, in.Ops...), c16Op{Op: "flushup"}, c16Op{Op: "flushpeer"})
